@@ -13,6 +13,7 @@ import (
 	"path/filepath"
 	"runtime"
 	"strings"
+	"syscall"
 	"time"
 
 	"github.com/safing/portbase/database/iterator"
@@ -190,7 +191,9 @@ func (fst *FSTree) Query(q *query.Query, local, internal bool) (*iterator.Iterat
 		walkRoot = walkPrefix
 	case err == nil:
 		walkRoot = filepath.Dir(walkPrefix)
-	case errors.Is(err, fs.ErrNotExist):
+	case errors.Is(err, fs.ErrNotExist), errors.Is(err, syscall.ENOTDIR):
+		// Nothing there (the prefix may also lead through a record's file):
+		// the walk finds what there is, if anything.
 		walkRoot = filepath.Dir(walkPrefix)
 	default: // err != nil
 		return nil, fmt.Errorf("fstree: could not stat query root %s: %w", walkPrefix, err)
@@ -205,6 +208,10 @@ func (fst *FSTree) Query(q *query.Query, local, internal bool) (*iterator.Iterat
 func (fst *FSTree) queryExecutor(walkRoot string, queryIter *iterator.Iterator, q *query.Query, local, internal bool) {
 	err := filepath.Walk(walkRoot, func(path string, info os.FileInfo, err error) error {
 		if err != nil {
+			if errors.Is(err, fs.ErrNotExist) || errors.Is(err, syscall.ENOTDIR) {
+				// There is nothing below a prefix that does not exist.
+				return nil
+			}
 			return fmt.Errorf("fstree: error in walking fs: %w", err)
 		}
 
